@@ -71,7 +71,7 @@ CHECKS = {
     "C15": ("E3-fault-enumerators", "fault_enumeration",
             "exhaustive single-fault injection at every (operator, output item, occurrence) position x {error, panic} of every statement shape",
             "For each statement shape and engine one fault-free run lists every position at which an operator hands an item (or end of stream) to its consumers; one fault is then injected at every position; the statement must return Err or the complete fault-free answer, and a failed DML must leave the tables unchanged (also after reopen).",
-            "Bounded: 19 statement shapes, 2-3 engine configurations, 2300-row inputs (3 chunks) and a 20-chunk input (fault positions beyond an operator's 16-slot output channel), single faults; faults on the committing DML operator's own output are excluded (after the commit point).",
+            "Bounded: 21 statement shapes (incl. nested-loop semi / anti joins), 2-3 engine configurations, 2300-row inputs (3 chunks) and a 20-chunk input (fault positions beyond an operator's 16-slot output channel), single faults; faults on the committing DML operator's own output are excluded (after the commit point).",
             "DESIGN.md §3 E3, §4 C15"),
     "C16": ("E1-small-scope", "exploration",
             "exhaustive small-scope enumeration: (a) runtime vs statically derived column types over the statement corpus, (b) INSERT sources x column types x constraints, (c) multi-row VALUES lists vs the same rows inserted one by one, (d) INSERT column lists in every permutation",
